@@ -426,7 +426,42 @@ func getFromObjStm(r Getter, number uint32, sRef Reference, getInt getIntFn, enc
 		return nil, err
 	}
 
+	// ReadObject leaves it to the caller to recognise "n g R": a member of an
+	// object stream may itself be an indirect reference.
+	if a, ok := obj.(Integer); ok {
+		if ref, ok := contents.s.tryReferenceAfter(a); ok {
+			obj = ref
+		}
+	}
+
 	return obj, nil
+}
+
+// tryReferenceAfter is called after the integer a has been read.  It reports
+// whether the input continues with a generation number and the keyword R.
+func (s *scanner) tryReferenceAfter(a Integer) (Reference, bool) {
+	if err := s.SkipWhiteSpace(); err != nil {
+		return 0, false
+	}
+	buf, _ := s.PeekN(1)
+	if len(buf) == 0 || buf[0] < '0' || buf[0] > '9' {
+		return 0, false
+	}
+	b, err := s.ReadInteger()
+	if err != nil {
+		return 0, false
+	}
+	if err := s.SkipWhiteSpace(); err != nil {
+		return 0, false
+	}
+	buf, _ = s.PeekN(2)
+	if len(buf) == 0 || buf[0] != 'R' || (len(buf) > 1 && class[buf[1]] == regular) {
+		return 0, false
+	}
+	if a < 0 || a >= maxXRefSize || b < 0 || b > maxGeneration {
+		return 0, false
+	}
+	return NewReference(uint32(a), uint16(b)), true
 }
 
 func (r *Reader) getID(obj Object) ([][]byte, error) {
